@@ -308,15 +308,21 @@ def r4_same_worker(a, tier):
     fn = a.p.func('tatsu.parproc.parproc.parproc')
     uses = []
     # the Task list: the local(s) bound to a display/comprehension of Task(...)
-    task_lists = {t.id for n in walk_no_defs(fn.node) if isinstance(n, (ast.Assign, ast.AnnAssign)) and n.value is not None
-                  for t in ([n.target] if isinstance(n, ast.AnnAssign) else n.targets) if isinstance(t, ast.Name)
-                  and any(isinstance(x, ast.Call) and dotted(x.func) == 'Task' for x in ast.walk(n.value))}
+    def targets_of(n):
+        return [t for t in ([n.target] if isinstance(n, ast.AnnAssign) else n.targets) if isinstance(t, ast.Name)]
+    binds = [n for n in walk_no_defs(fn.node) if isinstance(n, (ast.Assign, ast.AnnAssign)) and n.value is not None]
+    # a local that holds ONE task (`task = Task(...)`) is not the list; a local bound to a display / comprehension of tasks is
+    one_task = {t.id for n in binds if isinstance(n.value, ast.Call) and dotted(n.value.func) == 'Task' for t in targets_of(n)}
+
+    def makes_tasks(e) -> bool:
+        return any((isinstance(x, ast.Call) and dotted(x.func) == 'Task') or (isinstance(x, ast.Name) and x.id in one_task) for x in ast.walk(e))
+    task_lists = {t.id for n in binds if not (isinstance(n.value, ast.Call) and dotted(n.value.func) == 'Task') and makes_tasks(n.value) for t in targets_of(n)}
     for n in walk_no_defs(fn.node):
-        # tasks.append(Task(...)) / tasks += [Task(...)]
+        # tasks.append(Task(...)) / tasks.append(task) / tasks += [Task(...)]
         if isinstance(n, ast.Call) and isinstance(n.func, ast.Attribute) and n.func.attr in ('append', 'extend') and isinstance(n.func.value, ast.Name) \
-                and any(isinstance(x, ast.Call) and dotted(x.func) == 'Task' for a_ in n.args for x in ast.walk(a_)):
+                and any(makes_tasks(a_) for a_ in n.args):
             task_lists.add(n.func.value.id)
-        if isinstance(n, ast.AugAssign) and isinstance(n.target, ast.Name) and any(isinstance(x, ast.Call) and dotted(x.func) == 'Task' for x in ast.walk(n.value)):
+        if isinstance(n, ast.AugAssign) and isinstance(n.target, ast.Name) and makes_tasks(n.value):
             task_lists.add(n.target.id)
     if not task_lists:
         raise AnalysisError('parproc: the list of Task(...) objects bound to a local was not found')
@@ -386,12 +392,20 @@ def r5_capture(a, tier):
     retn = [r.value for r in walk_no_defs(fn.node) if isinstance(r, ast.Return) and r.value is not None]
     rets = [norm(r) for r in retn]
 
-    def is_result(e) -> bool:
+    def is_result(e, f=None, depth=0) -> bool:
+        f = f or fn
         if isinstance(e, ast.Call):
-            return dotted(e.func) == 'Result'
+            if dotted(e.func) == 'Result':
+                return True
+            # a private helper that builds the Result (`_stopped_result(task)`): every return of the helper is one
+            h = (a.extents.helper_for_call(fn, f, e) or a.extents.shared_helper_for_call(f, e)) if depth < 2 else None
+            if h is not None:
+                hr = [r.value for r in walk_no_defs(h.node) if isinstance(r, ast.Return)]
+                return bool(hr) and all(x is not None and is_result(x, h, depth + 1) for x in hr)
+            return False
         if isinstance(e, ast.Name):
-            b = _bindings(fn, e.id)
-            return bool(b) and all(x is not None and isinstance(x, ast.Call) and dotted(x.func) == 'Result' for x in b)
+            b = _bindings(f, e.id)
+            return bool(b) and all(x is not None and isinstance(x, ast.Call) and is_result(x, f, depth) for x in b)
         return False
     rep.add({'returns': rets})
     if not retn or not all(is_result(r) for r in retn):
